@@ -18,6 +18,7 @@ import (
 	"grog/internal/caching"
 	"grog/internal/caching/backends"
 	"grog/internal/config"
+	"grog/internal/proto/gen"
 	"grog/verif/lib/audit"
 	"grog/verif/lib/fakes3"
 	"grog/verif/lib/histeng"
@@ -79,7 +80,7 @@ func (m *remote) Exists(_ context.Context, path, key string) (bool, error) {
 }
 
 type WOp struct {
-	Kind  string `json:"kind"` // cas-write | get | drop-local | drop-remote | local-only-write | new-process
+	Kind  string `json:"kind"` // cas-write | get | drop-local | drop-remote | local-only-write | new-process | target-write | local-only-target
 	Blob  int    `json:"blob"`
 	Fault string `json:"fault,omitempty"` // "" | set | get | head
 }
@@ -137,6 +138,35 @@ func runWrapper(c WCase) (pbt.Result, error) {
 			delete(rem.data, "cas/"+d)
 			rem.mu.Unlock()
 			cas = caching.NewCas(wrapper)
+		case "local-only-target", "target-write":
+			key := fmt.Sprintf("change%02d", op.Blob)
+			tr := &gen.TargetResult{ChangeHash: key, OutputHash: "out-" + key}
+			if op.Kind == "local-only-target" {
+				// the result was recorded while no remote was configured
+				if err := caching.NewTargetResultCache(fsc).Write(ctx, tr); err != nil {
+					return res, err
+				}
+				res.Classes = append(res.Classes, "result-local-before-remote")
+				continue
+			}
+			localOnly := false
+			if ok, _ := fsc.Exists(ctx, "target", key); ok {
+				rem.mu.Lock()
+				_, inRemote := rem.data["target/"+key]
+				rem.mu.Unlock()
+				localOnly = !inRemote
+			}
+			if err := caching.NewTargetResultCache(wrapper).Write(ctx, tr); err == nil {
+				rem.mu.Lock()
+				_, ok := rem.data["target/"+key]
+				rem.mu.Unlock()
+				if !ok {
+					return res, pbt.Fail("result-not-in-remote-after-successful-write", "op %d: TargetResultCache.Write(%s) succeeded (fault=%q, result was local-only before: %v) but the remote store does not have it", i, key, op.Fault, localOnly)
+				}
+				if localOnly {
+					res.NonTrivial = true
+				}
+			}
 		case "cas-write":
 			hadLocalOnly := localHas(d) && !remoteHas(d)
 			err := cas.Write(ctx, d, bytes.NewReader(data))
@@ -192,7 +222,7 @@ func TestWrapperOps(t *testing.T) {
 		Gen: func(t *rapid.T) WCase {
 			var c WCase
 			for i := rapid.IntRange(2, 10).Draw(t, "nops"); i > 0; i-- {
-				c.Ops = append(c.Ops, WOp{Kind: rapid.SampledFrom([]string{"cas-write", "cas-write", "get", "get", "drop-local", "drop-remote", "local-only-write", "new-process"}).Draw(t, "kind"),
+				c.Ops = append(c.Ops, WOp{Kind: rapid.SampledFrom([]string{"cas-write", "cas-write", "get", "get", "get", "drop-local", "drop-local", "drop-remote", "local-only-write", "new-process", "target-write", "target-write", "local-only-target"}).Draw(t, "kind"),
 					Blob: rapid.IntRange(0, 3).Draw(t, "blob"), Fault: rapid.SampledFrom([]string{"", "", "", "set", "get", "head"}).Draw(t, "fault")})
 			}
 			return c
@@ -269,6 +299,15 @@ func runMachines(c MCase) (pbt.Result, error) {
 			_ = os.RemoveAll(m.Root)
 			_ = os.MkdirAll(m.Root, 0o755)
 			log = append(log, fmt.Sprintf("#%d wipe local cache of machine %d", i, st.Machine%2))
+		case "lose-local-blobs":
+			m := machines[st.Machine%2]
+			for _, cdir := range m.CacheDirs() {
+				_ = os.RemoveAll(filepath.Join(cdir, "cas"))
+			}
+			m.WipeOutputs(w)
+			log = append(log, fmt.Sprintf("#%d machine %d loses its local blobs (target results stay) and its build products", i, st.Machine%2))
+			res.NonTrivial = true
+			res.Classes = append(res.Classes, "local-blobs-lost")
 		case "remote-lose":
 			keys := srv.Keys()
 			var cas []string
@@ -433,7 +472,13 @@ func TestMachines(t *testing.T) {
 			}
 			n := rapid.IntRange(2, 7).Draw(t, "nsteps")
 			for i := 0; i < n; i++ {
-				k := rapid.SampledFrom([]string{"build", "build", "build", "edit", "wipe-local", "remote-lose"}).Draw(t, "kind")
+				k := rapid.SampledFrom([]string{"build", "build", "build", "edit", "wipe-local", "remote-lose", "lose-local-blobs", "cross-restore-with-truncation"}).Draw(t, "kind")
+				if k == "cross-restore-with-truncation" {
+					// machine A publishes, machine B (empty local cache) restores while the n-th download breaks off half way
+					c.Steps = append(c.Steps, MStep{Kind: "build", Machine: 0, Remote: true}, MStep{Kind: "wipe-local", Machine: 1},
+						MStep{Kind: "build", Machine: 1, Remote: true, Faults: []fakes3.Fault{{Method: "GET", Nth: rapid.IntRange(0, 6).Draw(t, "nth"), Action: "truncate"}}})
+					continue
+				}
 				st := MStep{Kind: k, Machine: rapid.IntRange(0, 1).Draw(t, "machine"), T: rapid.IntRange(0, 7).Draw(t, "t"), F: rapid.IntRange(0, 7).Draw(t, "f"), V: rapid.IntRange(0, 7).Draw(t, "v")}
 				if k == "build" {
 					st.Remote = rapid.IntRange(0, 3).Draw(t, "remote") > 0
